@@ -185,11 +185,16 @@ def childIndents (toks : Array Tok) (k : Nat) (cs : List Tree) (d : Nat) : List 
       else (c, d + 1)
   else cs.map fun c => (c, d)
 
-/-- (token index, indent in force when the run in front of it is consumed), in stream order; fuel bounds the depth -/
-def walkInd (toks : Array Tok) : Nat → Tree → Nat → List (Nat × Nat)
-  | _, .leaf i, d => [(i, d)]
-  | 0, .node _ _ _ _, _ => []
-  | fuel + 1, .node k _ _ cs, d => (childIndents toks k cs d).flatMap fun (t, dd) => walkInd toks fuel t dd
+mutual
+/-- (token index, indent in force when the run in front of it is consumed), in stream order -/
+def walkInd (toks : Array Tok) : Tree → Nat → List (Nat × Nat)
+  | .leaf i, d => [(i, d)]
+  | .node k _ _ cs, d => walkIndL toks cs ((childIndents toks k cs d).map (·.2))
+/-- children paired positionally with their indents (a missing indent defaults to 0; `childIndents` returns one per child) -/
+def walkIndL (toks : Array Tok) : List Tree → List Nat → List (Nat × Nat)
+  | [], _ => []
+  | t :: rest, ds => walkInd toks t (ds.headD 0) ++ walkIndL toks rest ds.tail
+end
 
 /-! ### assembling the output -/
 
@@ -222,7 +227,7 @@ def astWrite (fmt : RunFmt) (toks : List Tok) : Except Err Bytes :=
   | .error e => .error e
   | .ok none => .error .parse
   | .ok (some (ts, _)) =>
-    assemble fmt arr (ts.flatMap fun t => walkInd arr (20 * arr.size + 50) t 0) 0 []
+    assemble fmt arr (ts.flatMap fun t => walkInd arr t 0) 0 []
 
 /-- `LuaASTEchoWriter` -/
 def astEcho (toks : List Tok) : Except Err Bytes := astWrite (fun _ _ _ r => r) toks
